@@ -51,6 +51,7 @@ const REQ_TEMPLATES: &[(&[u8], &[u32])] = &[
     (b"PUT /x HTTP/1.1\nA: \x80\xff obs\n\n", &[0]),
     (b"GET / HTTP/1.1\r\n \r\n", &[16, 0]),
     (b"GET / HTTP/1.1\r\n\t\r\nA: b\r\n\r\n", &[16, 80]),
+    (b"\r\n\nPUT /x HTTP/1.1\r\nA: b\r\nC: d\nE: f\r\n\r\n", &[0, 4]),
     (b"GET /t HTTP/1.1\r\nhost: a\r\ntransfer-encoding: chunked\r\nt: 1\r\n\r\n", &[0, 64]),
 ];
 
@@ -466,6 +467,26 @@ fn g3(out: &mut Out, rng: &mut Rng, thorough: bool) -> io::Result<()> {
                 r[at + p] = b;
                 r.extend_from_slice(b" HTTP/1.1\r\n\r\n");
                 line(out, "req", 0, 1, &r)?;
+            }
+        }
+    }
+    // obsolete folds after long values: the value scanner is re-entered on the continuation line with a
+    // non-empty uncommitted token behind the cursor; continuation and tail lengths around vector widths
+    for first in [1usize, 15, 16, 17, 30, 31, 32, 33, 36, 47, 48, 63, 64, 65, 70] {
+        for cont in [0usize, 1, 3, 15, 16, 17, 30, 31, 32, 33, 40] {
+            for (ws, eol) in [(b' ', &b"\r\n"[..]), (b'\t', &b"\n"[..])] {
+                for cfg in [2u32, 3, 34, 0] {
+                    let mut r = b"HTTP/1.1 200 OK\r\nA: ".to_vec();
+                    r.extend((0..first).map(|i| b'a' + (i % 26) as u8));
+                    r.extend_from_slice(eol);
+                    r.push(ws);
+                    r.extend((0..cont).map(|i| b'b' + (i % 20) as u8));
+                    r.extend_from_slice(eol);
+                    r.extend_from_slice(b"B: c\r\n\r\n");
+                    line(out, "resp", cfg, 3, &r)?;
+                    let cut = r.len() - 10;
+                    line(out, "resp", cfg, 3, &r[..cut])?;
+                }
             }
         }
     }
@@ -1059,16 +1080,25 @@ pub fn cmd_cost(args: &[String]) {
                 // SAFETY: plain libc call
                 unsafe { alarm(60) };
                 let t0 = Instant::now();
+                let show = |r: Result<httparse::Status<usize>, String>, nh: usize| match r {
+                    Ok(httparse::Status::Complete(n)) => format!("C:{}:{}", n, nh),
+                    Ok(httparse::Status::Partial) => "P".to_string(),
+                    Err(e) => format!("E:{}", e),
+                };
                 status = match kind {
                     "req" => {
                         let mut r = httparse::Request::new(&mut headers);
-                        format!("{:?}", config.parse_request(&mut r, &buf).map(|s| s.is_complete()))
+                        let st = config.parse_request(&mut r, &buf).map_err(|e| format!("{:?}", e));
+                        let nh = r.headers.len();
+                        show(st, nh)
                     }
                     "resp" => {
                         let mut r = httparse::Response::new(&mut headers);
-                        format!("{:?}", config.parse_response(&mut r, &buf).map(|s| s.is_complete()))
+                        let st = config.parse_response(&mut r, &buf).map_err(|e| format!("{:?}", e));
+                        let nh = r.headers.len();
+                        show(st, nh)
                     }
-                    _ => format!("{:?}", httparse::parse_chunk_size(&buf).map(|s| s.is_complete())),
+                    _ => show(httparse::parse_chunk_size(&buf).map(|s| match s { httparse::Status::Complete((n, _)) => httparse::Status::Complete(n), httparse::Status::Partial => httparse::Status::Partial }).map_err(|_| "ChunkSize".to_string()), 0),
                 };
                 let dt = t0.elapsed().as_nanos();
                 // SAFETY: plain libc call
